@@ -65,10 +65,23 @@ fn instrument() -> Instrument<ExchangeId, AssetNameExchange> {
     }
 }
 
+/// The two tokio channel handles of a MockExchange are never touched by `open_order`. Under Kani they are dangling
+/// one-word handles (creating real channels drags the tokio runtime structures into the formula: out of memory);
+/// in the native replay build they are real channels.
+#[cfg(not(verif_native))]
+fn channels() -> (tokio::sync::mpsc::UnboundedReceiver<barter_execution::exchange::mock::request::MockExchangeRequest>, tokio::sync::broadcast::Sender<barter_execution::UnindexedAccountEvent>) {
+    unsafe { (core::mem::transmute::<usize, _>(8usize), core::mem::transmute::<usize, _>(8usize)) }
+}
+#[cfg(verif_native)]
+fn channels() -> (tokio::sync::mpsc::UnboundedReceiver<barter_execution::exchange::mock::request::MockExchangeRequest>, tokio::sync::broadcast::Sender<barter_execution::UnindexedAccountEvent>) {
+    let (request_tx, request_rx) = tokio::sync::mpsc::unbounded_channel();
+    let (event_tx, event_rx) = tokio::sync::broadcast::channel(2);
+    core::mem::forget((request_tx, event_rx));
+    (request_rx, event_tx)
+}
+
 fn exchange(base: Decimal, quote: Decimal, fees_percent: Decimal, sequence: u64) -> MockExchange {
-    let (_request_tx, request_rx) = tokio::sync::mpsc::unbounded_channel();
-    let (event_tx, _event_rx) = tokio::sync::broadcast::channel(2);
-    core::mem::forget((_request_tx, _event_rx));
+    let (request_rx, event_tx) = channels();
     let (balances, instruments) = maps(base, quote);
     MockExchange {
         exchange: ExchangeId::Mock,
@@ -83,16 +96,10 @@ fn exchange(base: Decimal, quote: Decimal, fees_percent: Decimal, sequence: u64)
     }
 }
 
-fn balance_now(x: &MockExchange, name: &str) -> Decimal {
-    let mut found = None;
-    for b in x.account.balances() {
-        if b.asset == asset(name) {
-            assert!(found.is_none(), "C08: duplicate balance entry");
-            assert!(b.balance.total == b.balance.free, "C08: total and free diverged for a market-order-only exchange");
-            found = Some(b.balance.total);
-        }
-    }
-    found.expect("C08: balance entry lost")
+fn balance_now(x: &mut MockExchange, name: &str) -> Decimal {
+    let b = x.account.balance_mut(&asset(name)).expect("C08: balance entry lost");
+    assert!(b.balance.total == b.balance.free, "C08: total and free diverged for a market-order-only exchange");
+    b.balance.total
 }
 
 fn step(side: Side) {
@@ -107,7 +114,7 @@ fn step(side: Side) {
         state: RequestOpen { side, price, quantity, kind, time_in_force: TimeInForce::ImmediateOrCancel },
     };
     let (response, notifications) = x.open_order(request);
-    let (base1, quote1) = (balance_now(&x, "btc"), balance_now(&x, "usdt"));
+    let (base1, quote1) = (balance_now(&mut x, "btc"), balance_now(&mut x, "usdt"));
     // the asset being spent: quote for a buy (price x quantity plus fees), base for a sell (quantity plus fees)
     let required = match side {
         Side::Buy => price * quantity + price * quantity * fee_pct,
@@ -132,7 +139,7 @@ fn step(side: Side) {
         assert!(n.trade.side == side && n.trade.price == price && n.trade.quantity == quantity, "C08: fill does not reflect the order");
         assert!(deq(n.trade.fees.fees, price * quantity * fee_pct), "C08: fee is not the configured percentage of the order value");
         let spent = match side { Side::Buy => "usdt", Side::Sell => "btc" };
-        assert!(n.balance.0.asset == asset(spent) && deq(n.balance.0.balance.total, balance_now(&x, spent)), "C08: balance notification is not the spent asset's new balance");
+        assert!(n.balance.0.asset == asset(spent) && deq(n.balance.0.balance.total, balance_now(&mut x, spent)), "C08: balance notification is not the spent asset's new balance");
     } else {
         assert!(base1 == base0 && quote1 == quote0, "C08: a rejected order changed a balance");
         assert!(x.order_sequence == 7, "C08: a rejected order consumed an order id");
